@@ -399,16 +399,59 @@ def cbrt_pos(x):
                     r = Fraction(nn, dd)
                     return r.numerator if r.denominator == 1 else r
         x = SymReal(toz(x))
+    x = sc.reduced(x)
+    if not isinstance(x, SymReal):
+        return cbrt_pos(x)
     memo = c.memo.setdefault("cbrt", {})
     key = x.z.get_id()
     if key in memo:
         return memo[key]
     if c.branch(x.z < 0):
         return POISON
+    root = _perfect_cube_root(x.z)
+    if root is not None:
+        # x = root^3 and x >= 0 on this path, hence root >= 0 and it is the real cube root
+        memo[key] = root
+        return root
     s = c.fresh("cbrt")
     c.axiom(s, z3.And(s >= 0, s * s * s == x.z))
     memo[key] = SymReal(s)
     return memo[key]
+
+
+def _perfect_cube_root(z):
+    """if z is a single monomial c * prod v_i^(3 k_i) with c a rational cube: its cube root"""
+    from . import polyred
+    try:
+        conv = polyred.Converter()
+        p = conv.to_poly(z)
+    except polyred.NotPolynomial:
+        return None
+    if p.nterms() != 1:
+        return None
+    (mm, c), = p.t.items()
+    m, i = [], 0
+    while mm:
+        e = mm & polyred.MASK
+        if e:
+            m.append((conv.names[i], e))
+        mm >>= polyred.BITS
+        i += 1
+    if _b.any(e % 3 for _, e in m) or conv.inverse:
+        return None
+    c = Fraction(c)
+    num, den = c.numerator, c.denominator
+    sgn = -1 if num < 0 else 1
+    rn, rd = _b.round(_b.abs(num) ** (1 / 3)), _b.round(den ** (1 / 3))
+    if rn ** 3 != _b.abs(num) or rd ** 3 != den:
+        return None
+    r = Fraction(sgn * rn, rd)
+    out = r
+    for v, e in m:
+        a = SymReal(conv.atoms[v])
+        for _ in range(e // 3):
+            out = out * a
+    return out
 
 
 def deg2rad(x):
@@ -956,8 +999,14 @@ class _Linalg:
 
     @staticmethod
     def det(a):
+        from . import symrot
         A = _plain(a)
         if A.shape == (3, 3):
+            r = symrot.lookup(A)
+            if r is not None:
+                # Lemma D (lemmas.py): |q| = 1  =>  det(sigma R(q)) = sigma
+                ctx().memo.setdefault("lemmas_used", set()).add("D")
+                return r.sigma
             return (A[0, 0] * (A[1, 1] * A[2, 2] - A[1, 2] * A[2, 1])
                     - A[0, 1] * (A[1, 0] * A[2, 2] - A[1, 2] * A[2, 0])
                     + A[0, 2] * (A[1, 0] * A[2, 1] - A[1, 1] * A[2, 0]))
